@@ -38,7 +38,10 @@ pub fn aigify(gate: &GateModule) -> AigModule {
         let edge = match gate.nets[net as usize].driver {
             NetDriver::Const(false) => AigEdge::CONST0,
             NetDriver::Const(true) => AigEdge::CONST1,
-            NetDriver::PortInput | NetDriver::FfQ(_) | NetDriver::Undriven => {
+            NetDriver::PortInput
+            | NetDriver::FfQ(_)
+            | NetDriver::RamRead(..)
+            | NetDriver::Undriven => {
                 // Treat any non-combinational driver as a primary input
                 // for the AIG. The caller wires the same NetId back when
                 // re-emitting cells.
@@ -148,6 +151,16 @@ pub fn aigify(gate: &GateModule) -> AigModule {
         // the FF index by position.
         aig.add_sink(ff.d, edge);
     }
+    // RAM macros are preserved verbatim like FFs: the nets they consume
+    // (clock, write addr/data/enable/mask, read addr) are sinks, added after
+    // the FF sinks in `for_each_ram_input_net` order; their read-data nets
+    // entered the AIG as primary inputs above.
+    let mut ram_inputs = Vec::new();
+    gate.for_each_ram_input_net(|net| ram_inputs.push(net));
+    for net in ram_inputs {
+        let edge = lower_net(&mut aig, gate, net);
+        aig.add_sink(net, edge);
+    }
 
     aig
 }
@@ -163,6 +176,7 @@ pub fn aig_to_cells(aig: &AigModule, original: &GateModule) -> GateModule {
         nets: Vec::new(),
         cells: Vec::new(),
         ffs: original.ffs.clone(),
+        ram_blocks: original.ram_blocks.clone(),
     };
 
     // Preserve the original net table layout so port / FF references
@@ -175,6 +189,7 @@ pub fn aig_to_cells(aig: &AigModule, original: &GateModule) -> GateModule {
                 NetDriver::Const(b) => NetDriver::Const(b),
                 NetDriver::PortInput => NetDriver::PortInput,
                 NetDriver::FfQ(idx) => NetDriver::FfQ(idx),
+                NetDriver::RamRead(ram, port, bit) => NetDriver::RamRead(ram, port, bit),
                 _ => NetDriver::Undriven,
             },
             origin: n.origin,
@@ -270,7 +285,7 @@ pub fn aig_to_cells(aig: &AigModule, original: &GateModule) -> GateModule {
 
     // Wire sinks: port outputs and FF D pins read from the edge's net.
     // Sinks appear in the order they were added: ports first, FFs
-    // second (see `aigify`).
+    // second, RAM input nets last (see `aigify`).
     let port_out_count: usize = original
         .ports
         .iter()
@@ -278,9 +293,13 @@ pub fn aig_to_cells(aig: &AigModule, original: &GateModule) -> GateModule {
         .map(|p| p.nets.len())
         .sum();
 
+    let ff_count = out.ffs.len();
+    let mut ram_srcs: Vec<NetId> = Vec::new();
     for (i, sink) in aig.sinks.iter().enumerate() {
         let src_net = resolve_fanin(&mut out, &mut pos_net, &mut neg_net, sink.edge);
-        if i < port_out_count {
+        if i >= port_out_count + ff_count {
+            ram_srcs.push(src_net);
+        } else if i < port_out_count {
             let target = sink.target;
             if src_net != target {
                 // Buffer target so the worklist / postpass collapses the
@@ -299,6 +318,13 @@ pub fn aig_to_cells(aig: &AigModule, original: &GateModule) -> GateModule {
             out.ffs[ff_idx].d = src_net;
         }
     }
+    // RAM inputs: rewire in the same order the sinks were added.
+    let mut ram_srcs = ram_srcs.into_iter();
+    out.for_each_ram_input_net_mut(|net| {
+        if let Some(src) = ram_srcs.next() {
+            *net = src;
+        }
+    });
 
     out
 }
